@@ -1,9 +1,12 @@
 package main
 
 import (
+	"bytes"
 	"fmt"
 	"math/rand"
 	"strings"
+	"syscall"
+	"verif/runner"
 
 	"verif/core"
 	"verif/model"
@@ -262,6 +265,56 @@ func checkC08(c *core.Ctx) {
 			f.Track = 1 + r.Intn(6)
 		}
 		judgeWellFormed(c, "outofrange", i, p, f, randWriteOpts(r), "outofrange")
+	})
+
+	// the output file cannot take the whole result (file size limit: the header fits, a later chunk does not):
+	// either the run fails, or what it leaves is the complete, well-formed file
+	c.Stream("sizelimit", c.N(40, 400), func(i int, r *rand.Rand) {
+		n := 40 + r.Intn(400)
+		p := model.RandPiece(r, model.GenOpts{MinLen: n, MaxLen: n, RestProb: 0.1, SettingProb: 0.05, TextProb: 0.3, KeyChanges: true, MaxDeg: 7})
+		if !p.Effective(model.Flags{}).AllInRange() || !p.TotalBelow(960, 1<<28) {
+			return
+		}
+		f := model.Flags{Track: []int{1, 2, 3, 5, 9}[r.Intn(5)]}
+		doc := c.Scratch.File("big.yml", p.YAML(model.YAMLStyle{}))
+		full := run(c, nil, append(append([]string{"write"}, f.Args()...), doc)...)
+		c.Eval(1)
+		if infra(c, full) || !full.OK() {
+			return
+		}
+		blocks := 1 + r.Intn(max(1, len(full.Stdout)/512+2))
+		path := c.Scratch.Path("limited.mid")
+		var res *runner.Result
+		if i%2 == 0 {
+			res = c.Crd.Run(runner.Opt{Stdin: []byte{}, FileBlocks: blocks}, append(append([]string{"write"}, f.Args()...), "-o", path, doc)...)
+		} else {
+			res = c.Crd.Run(runner.Opt{Stdin: []byte{}, FileBlocks: blocks, Redirect: ">" + path}, append(append([]string{"write"}, f.Args()...), doc)...)
+		}
+		c.Eval(1)
+		if infra(c, res) {
+			return
+		}
+		det := mergeMaps(obs(res), map[string]any{"limit_bytes": blocks * 512, "full_bytes": len(full.Stdout), "tracks": f.Tracks(), "instances": n})
+		if res.Signal == int(syscall.SIGXFSZ) {
+			c.Count("killed_by_SIGXFSZ", 1) // the default action of the limit itself, not a crash of crd
+			return
+		}
+		if a := abnormal(res); a != "" {
+			c.Violate("sizelimit", i, "sizelimit:abnormal", "crd write under a file size limit "+a, det)
+			return
+		}
+		got := readFileOrNil(path)
+		if res.OK() && !bytes.Equal(got, full.Stdout) {
+			_, derr := decodeSMF(got)
+			c.Violate("sizelimit", i, "sizelimit:truncated-success", fmt.Sprintf("crd write reports success under a file size limit of %d bytes, but left %d of %d bytes (%s)", blocks*512, len(got), len(full.Stdout), derr), det)
+			return
+		}
+		if res.OK() {
+			c.Count("fits_under_limit", 1)
+		} else {
+			c.Count("refused_under_limit", 1)
+			c.Nontrivial(fmt.Sprintf("sizelimit%d", i))
+		}
 	})
 
 	c.Stream("boundary", len(probes), func(i int, r *rand.Rand) {
